@@ -21,6 +21,13 @@ CLAIMED = {
              "(alloc_ref, alloc_with, dealloc_id, dealloc_ref) under the deterministic scheduler are validated by TLC against the same specs, and the id<->reference bijection is compared on the real pointers.",
         design="7 (C13), 4, 5",
         technique="TLA+ L2 spec + LinQueue(bag) monitor checked by TLC; trace validation of real executions (deterministic scheduler) against the spec"),
+    "C18": dict(
+        text="TLC exhaustively checks SpinStack (the atomic-flag stack: swap / each plain access of the critical region / store as separate actions) and the rings under the two non-blocking queues "
+             "against the LinQueue monitor (lifo / fifo, 'full' and 'empty' answers justified at an instant of the call); executions of the real atomic-flag stack under the deterministic scheduler are "
+             "validated against SpinStack, those of the two NonBlockingQueues against the L1 monitor; all four containers (incl. the parking-lot stack) are additionally run free on 16 cores, "
+             "call/return stamped from one global counter, and the merged histories are checked for linearizability by TLC.",
+        design="7 (C18), 4, 5",
+        technique="TLA+ L2 spec (SpinStack, rings) + LinQueue(lifo/fifo) monitor checked by TLC; trace validation of deterministic-scheduler and free-running executions of the real containers"),
 }
 
 NOT_YET = "check not built yet (work in progress; see DESIGN.md section 12)"
